@@ -75,6 +75,7 @@ fn materialise(root: &str, job: &Job) -> bool {
 pub fn run_plan_realfs(plan: &SimPlan) -> PlanResult {
     let plan2 = plan.clone();
     seams::set_sim_time(1_700_000_000, 0);
+    seams::set_clock_tick(0);
     let h = std::thread::Builder::new()
         .name("sim-real".to_string())
         .stack_size(8 << 20)
